@@ -30,8 +30,8 @@ LEVEL_NOTE = "Trusted: numpy sums in long double, scipy.integrate.quad (1e-10), 
 
 def budget(tier):
     if tier == "quick":
-        return dict(max_examples=500, workers=4, time_s=170, min_cases=150)
-    return dict(max_examples=30000, workers=16, time_s=1200, min_cases=300)
+        return dict(max_examples=1500, workers=8, time_s=170, min_cases=400)
+    return dict(max_examples=200000, workers=16, time_s=1200, min_cases=800)
 
 
 @st.composite
